@@ -60,9 +60,11 @@ def _rand_spec(rng: random.Random, i: int) -> dict:
 
 def _loop_spec(rng: random.Random, i: int) -> dict:
     times = rng.randint(1, 3)
-    shape = rng.choice(["loop", "side", "loop2"])
+    shape = rng.choice(["loop", "side", "loop2", "bodyside", "bodyside"])
     if shape == "side":
         sp = specs.jump_side_branch(times)
+    elif shape == "bodyside":
+        sp = specs.jump_body_side_chain(times)
     else:
         sp = specs.jump_loop(times, rng.randint(2, 4))
     for s in sp["stages"]:
@@ -93,8 +95,14 @@ def _forward_spec(rng: random.Random, i: int) -> dict:
 def _spec_for(i: int, seed: int) -> dict:
     rng = random.Random(seed * 7 + i * 1013)
     if i % 10 == 9:
-        return _forward_spec(rng, i)
-    return _loop_spec(rng, i) if i % 3 == 2 else _rand_spec(rng, i)
+        sp = _forward_spec(rng, i)
+    else:
+        sp = _loop_spec(rng, i) if i % 3 == 2 else _rand_spec(rng, i)
+    if i % 2 == 1:
+        # the order in which a workflow lists its stages carries no meaning: every second workflow is listed
+        # reversed / shuffled (code that walks execution.stages once must not depend on upstream-first listing)
+        sp = dict(sp, stages=list(reversed(sp["stages"])) if i % 4 == 1 else rng.sample(sp["stages"], len(sp["stages"])))
+    return sp
 
 
 def gen_cases(tier: str, seed: int) -> list[dict]:
